@@ -39,6 +39,8 @@ pub fn gen_swarm(rng: &mut Rng, profile: Profile) -> Swarm {
         _ => *rng.pick(&[0u128, 1000, 10000, 10000, 50000, 100000]),
     };
     let many = profile == Profile::ManyBatches;
+    // thorough tier: a third of the histories are three times as long
+    let long = std::env::var("MWSIM_LONG").map(|v| v == "1").unwrap_or(false) && rng.chance(1, 3);
     Swarm {
         profile,
         proto_prefix,
@@ -58,7 +60,7 @@ pub fn gen_swarm(rng: &mut Rng, profile: Profile) -> Swarm {
         honest: rng.chance(1, 2),
         faults: rng.chance(7, 10),
         skew: rng.range(0, 60) as i64 - 30,
-        n_ops: if many { 260 } else { rng.range(20, 150) as u32 },
+        n_ops: if many { 260 } else { rng.range(20, 150) as u32 * if long { 3 } else { 1 } },
         start_s: 1_700_000_000 + rng.below(100_000_000),
         base_tx_index: rng.below(50) as u32,
         zero_ibc_ok: rng.chance(3, 10),
